@@ -68,13 +68,13 @@ func (iso *ISO3k3y) Read(b []byte) (int, error) {
 }
 
 func (iso *ISO3k3y) ReadAt(b []byte, off int64) (int, error) {
+	// a positional read that reaches the end of the file returns its bytes together with io.EOF: they are masked all the same
 	read, err := iso.privateFile.ReadAt(b, off)
-	if err != nil || read == 0 {
-		return read, err
+	if read > 0 {
+		iso.clear3k3yData(sizeBytes(off), b[:read])
 	}
 
-	iso.clear3k3yData(sizeBytes(off), b[:read])
-	return read, nil
+	return read, err
 }
 
 func (*ISO3k3y) clear3k3yData(start sizeBytes, data []byte) {
